@@ -141,6 +141,15 @@ func (ex *Exec) ApplySchemas() {
 				if fl == "needs-backend" && !ex.reachBackend[key] {
 					skip = true
 				}
+				if fl == "no-handle-result" {
+					rs := fn.Signature.Results()
+					for i := 0; i < rs.Len(); i++ {
+						ts := rs.At(i).Type().String()
+						if strings.HasSuffix(ts, ".File") || strings.HasSuffix(ts, "ReadCloser") || strings.HasSuffix(ts, "WriteCloser") || strings.Contains(ts, "zip.Reader") || strings.Contains(ts, "tar.Reader") || strings.HasSuffix(ts, ".ICloseableFS") || strings.HasSuffix(ts, ".FS") {
+							skip = true
+						}
+					}
+				}
 				if fl == "needs-lasterr" {
 					rs := fn.Signature.Results()
 					if rs.Len() == 0 || !isErrorType(rs.At(rs.Len()-1).Type()) {
